@@ -347,6 +347,16 @@ impl Mac {
         }
     }
 
+    /// Consumes the frame counter of a transmitted uplink whose receive procedure was
+    /// aborted (eg: by a radio error) before `handle_rx` or `rx2_complete` could do so.
+    pub(crate) fn uplink_aborted(&mut self, fcnt_up: FcntUp) {
+        if let State::Joined(session) = &mut self.state
+            && session.fcnt_up == fcnt_up
+        {
+            let _ = session.rx2_complete(&mut self.configuration, &self.region);
+        }
+    }
+
     pub(crate) fn get_session_keys(&self) -> Option<SessionKeys> {
         match &self.state {
             State::Joined(session) => session.get_session_keys(),
